@@ -485,6 +485,13 @@ def monitor(case, obs):
             elif l.get("exc") is None and not rr["tb"] and (rr["rc"], rr["out"]) != (l["rc"], l["out"]):
                 st = "no-status" if "--no-status" in rr["argv"] else "status-on"
                 hits.append({"prop": "C14", "key": f"cli-vs-library:real-stdout:{st}", "what": f"python -m graphtage --no-color {' '.join(rr['argv'])} (stdout a pipe): rc={rr['rc']} text {rr['out'][:80]!r}; library: rc={l['rc']} text {l['out'][:80]!r}"})
+        # C05 ("any setting of progress, status ... output yields the same ... script"): the real process with and without
+        # status output prints the same diff and ends with the same status
+        reals = [rr for rr in (obs.get("real") or []) if not rr.get("timeout") and not rr.get("tb")]
+        on = [rr for rr in reals if "--no-status" not in rr["argv"]]
+        off = [rr for rr in reals if "--no-status" in rr["argv"]]
+        if on and off and (on[0]["rc"], on[0]["out"]) != (off[0]["rc"], off[0]["out"]):
+            hits.append({"prop": "C05", "key": "status-changes-printed-script", "what": f"python -m graphtage {' '.join(on[0]['argv'])}: with status output rc={on[0]['rc']} text {on[0]['out'][:100]!r}; with --no-status rc={off[0]['rc']} text {off[0]['out'][:100]!r}"})
     return hits
 
 
